@@ -9,7 +9,9 @@ def kfLibFlags (c : LibCfg) : List (String × LibCfg) :=
   (if c.stringsEmptyUnequal then [("strings-empty-unequal", { c with stringsEmptyUnequal := false })] else []) ++
   (if c.stringsCmpOutOfRange then [("strings-cmp-out-of-range", { c with stringsCmpOutOfRange := false })] else []) ++
   (if c.stringsNilPtrPanics then [("strings-nil-ptr-panics", { c with stringsNilPtrPanics := false })] else []) ++
+  (if c.stringsNilSrcPanics then [("strings-nil-src-panics", { c with stringsNilSrcPanics := false })] else []) ++
   (if c.samapCapIsLen then [("samap-cap-is-len", { c with samapCapIsLen := false })] else []) ++
+  (if c.samapNilPtrPanics then [("samap-nil-ptr-panics", { c with samapNilPtrPanics := false })] else []) ++
   (if c.staticResetTextLost then [("static-reset-text-lost", { c with staticResetTextLost := false })] else []) ++
   (if c.staticDeqAsymmetric then [("static-deq-asymmetric", { c with staticDeqAsymmetric := false })] else []) ++
   (if c.staticDeqDiverges then [("static-deq-diverges", { c with staticDeqDiverges := false })] else []) ++
@@ -419,7 +421,7 @@ def samapOpGet (st : St) (trees : Std.HashMap String JVal) (head pathToks outTok
             match jnav j p with
             | .found .nil => (match norm o with | .none => true | _ => false)
             | _ => samapGetAccepts j p o
-          classifyL st (fun _ => samapGet j p) acc impl sh (fun o => match o with | .panic => true | _ => false) (some "samap-nil-ptr-panics")
+          classifyL st (fun c => samapGet c j p) acc impl sh (fun o => match o with | .panic => true | _ => false) (some "samap-nil-ptr-panics")
         | none => "skip unparsable-outcome")
      | _, _, _ => "skip unresolved-input")
   | _, _ => "skip bad-record"
@@ -437,7 +439,7 @@ def samapOpLC (st : St) (trees : Std.HashMap String JVal) (head pathToks fnToks 
        let impl : JLc := match impl0 with
          | .untouched => .untouched | .val n => .val n | .unsupported => .unsupported | .panic => .panic | .err => .unsupported
        let isCap := fn == "cap"
-       classifyL st (fun c => if isCap then samapCap c j p else samapLen j p) (samapLcAccepts isCap j p) impl showJLc (fun o => o == .panic) (some "samap-nil-ptr-panics")
+       classifyL st (fun c => if isCap then samapCap c j p else samapLen c j p) (samapLcAccepts isCap j p) impl showJLc (fun o => o == .panic) (some "samap-nil-ptr-panics")
      | _, _, _, _ => "skip unresolved-input")
   | _, _, _ => "skip bad-record"
 
@@ -480,9 +482,10 @@ def samapOpSet (st : St) (trees : Std.HashMap String JVal) (head pathToks srcTok
         | some impl =>
           let _ : BEq JSet := ⟨beq⟩
           -- nil-pointer and foreign roots: the model's root is not a map; compare on the outcome class only
-          let model : JSet := match j with
-            | .map _ 0 _ _ _ => samapSet j p src
-            | .map _ _ _ _ _ => if p.isEmpty then .ok (reroot m) else .panic
+          -- a nil-pointer root: dereferenced (panic); repaired, it is a nil map: nothing is set
+          let model (c : LibCfg) : JSet := match j with
+            | .map _ 0 _ _ _ => samapSet c j p src
+            | .map _ _ _ _ _ => if p.isEmpty || !c.samapNilPtrPanics then .ok (reroot m) else .panic
             | _ => if p.isEmpty then .ok (reroot m) else .unsupported (reroot m)
           let acc (o : JSet) : Bool := match j with
             | .map _ 0 _ _ _ => samapSetAccepts j p src o
@@ -493,8 +496,8 @@ def samapOpSet (st : St) (trees : Std.HashMap String JVal) (head pathToks srcTok
             | _, .ok _ => .ok (reroot m)
             | _, .unsupported _ => .unsupported (reroot m)
             | _, x => x
-          classifyL st (fun _ => fix model) acc (fix impl) sh (fun o => match o with | .panic => true | _ => false)
-            (if src.v.isNilPtr then some "assign-nil-src" else some "samap-nil-ptr-panics")
+          classifyL st (fun c => fix (model c)) acc (fix impl) sh (fun o => match o with | .panic => true | _ => false)
+            (some "samap-nil-ptr-panics")   -- nil roots / subtrees, and the inspector's own `*x` of a nil *string / *[]byte value
         | none => "skip unparsable-outcome")
      | _, _, _, _ => "skip unresolved-input")
   | _ => "skip bad-head"
@@ -510,25 +513,27 @@ def samapOpCopy (st : St) (trees : Std.HashMap String JVal) (head viaToks outTok
          | "ok" :: sh :: same :: rest => (parseJMap 0 rest).bind fun (x, _) => sh.toNat?.map fun s => ((if same == "1" then "ok" else "ok-src-changed"), s, some x)
          | [t] => some (t, 0, none)
          | _ => none
-       let model : String × Nat × Option JVal :=
+       -- a nil-pointer root: dereferenced (panic); repaired, it is a nil map: nothing is copied
+       let model (cfg : LibCfg) : String × Nat × Option JVal :=
          match j with
-         | .map _ 0 mn ks vs =>
-           if mn then ("ok", 0, some (.map 0 0 false (if via == "copy" then [] else [strBytes "stale"]) (if via == "copy" then [] else [.leaf { kind := .int, v := .int 1 }])))
-           else (match samapCpy (.map 0 0 false ks vs) with
+         | .map _ n mn ks vs =>
+           if n != 0 && cfg.samapNilPtrPanics then ("panic", 0, none) else
+           if mn || n != 0 then ("ok", 0, some (.map 0 0 false (if via == "copy" then [] else [strBytes "stale"]) (if via == "copy" then [] else [.leaf { kind := .int, v := .int 1 }])))
+           else (match samapCpy cfg (.map 0 0 false ks vs) with
                  | some (c, s) => ("ok", s, some c)
                  | none => ("panic", 0, none))
-         | .map _ _ _ _ _ => ("panic", 0, none)
          | _ => ("unsupported", 0, none)
        let _ : BEq (String × Nat × Option JVal) := ⟨fun a b => a.1 == b.1 && a.2.1 == b.2.1 && (match a.2.2, b.2.2 with
          | some x, some y => jeq x y | none, none => true | _, _ => false)⟩
        let acc (o : String × Nat × Option JVal) : Bool := match j, o with
-         | .map _ 0 false ks vs, ("ok", s, some c) => s ≤ ptrLeafCount (.map 0 0 false ks vs) && jeq (.map 0 0 false ks vs) c   -- equal tree, nothing (in the quantified trees) shared
+         -- equal tree (a nil pointer to a map inside it: a pointer to an empty map, `jCopyNorm`), nothing (in the quantified trees) shared
+         | .map _ 0 false ks vs, ("ok", s, some c) => s ≤ ptrLeafCount (.map 0 0 false ks vs) && jeq (jCopyNorm (.map 0 0 false ks vs)) c
          | .map _ 0 true _ _, ("ok", _, _) => true
          | .map _ 0 _ _ _, _ => false
          | .map _ _ _ _ _, _ => true
          | _, (t, _, _) => t == "unsupported"
        (match impl with
-        | some impl => classifyL st (fun _ => model) acc impl (fun o => o.1 ++ s!" {o.2.1} " ++ (o.2.2.map showJ).getD "-") (fun o => o.1 == "panic") (some "samap-nil-ptr-panics")
+        | some impl => classifyL st model acc impl (fun o => o.1 ++ s!" {o.2.1} " ++ (o.2.2.map showJ).getD "-") (fun o => o.1 == "panic") (some "samap-nil-ptr-panics")
         | none => "skip unparsable-outcome")
      | _, _ => "skip unresolved-input")
   | _, _ => "skip bad-record"
@@ -544,9 +549,11 @@ def samapOpReset (st : St) (trees : Std.HashMap String JVal) (head outToks : Lis
          | "ok" :: rest => (parseJMap 0 rest).map fun (x, _) => some x
          | _ => none
        let emptied : JVal := match m with | .map _ _ mn _ _ => .map 0 0 mn [] [] | x => x
-       let model : Option JVal := match f with
+       -- a nil-pointer root: dereferenced (panic); repaired, Reset does nothing
+       let model (c : LibCfg) : Option JVal := match f with
          | .ptr | .ptrptr => some emptied
-         | .nilPtr | .ptrNilPtr => none
+         | .nilPtr | .ptrNilPtr =>
+           if c.samapNilPtrPanics then none else some (match m with | .map _ _ mn ks vs => .map 0 0 mn ks vs | x => x)
          | _ => some (match m with | .map _ _ mn ks vs => .map 0 0 mn ks vs | x => x)
        let _ : BEq (Option JVal) := ⟨fun a b => match a, b with | some x, some y => jeq x y | none, none => true | _, _ => false⟩
        let acc (o : Option JVal) : Bool := match f, o with
@@ -555,7 +562,7 @@ def samapOpReset (st : St) (trees : Std.HashMap String JVal) (head outToks : Lis
          | _, some x => jeq x (match m with | .map _ _ mn ks vs => .map 0 0 mn ks vs | x => x)
          | _, none => false
        (match impl with
-        | some impl => classifyL st (fun _ => model) acc impl (fun o => (o.map showJ).getD "panic") (fun o => o.isNone) (some "samap-nil-ptr-panics")
+        | some impl => classifyL st model acc impl (fun o => (o.map showJ).getD "panic") (fun o => o.isNone) (some "samap-nil-ptr-panics")
         | none => "skip unparsable-outcome")
      | _, _ => "skip unresolved-input")
   | _ => "skip bad-head"
@@ -570,9 +577,10 @@ def samapOpLoop (st : St) (trees : Std.HashMap String JVal) (parts : List (List 
        let sc : LoopScript := { wantKey := [wk == "1"], ctl := ck.toList.map (fun c => c.toNat - 48) }
        -- the node the path leads to
        let target : Option (List Bytes × List JVal) × String :=
-         match samapGet j p with
+         match samapGet st.lib j p with
          | .node (.map _ 0 _ ks vs) => (some (ks, vs), "done")
-         | .node (.map _ _ _ _ _) => (none, "panic")
+         -- a nil pointer to a map: dereferenced (panic); repaired, it is a nil map: nothing to iterate over
+         | .node (.map _ _ _ ks vs) => if st.lib.samapNilPtrPanics then (none, "panic") else (some (ks, vs), "done")
          | .node _ => (none, "unsupported")
          | .none => (none, "done")
          | .unsupported => (none, "unsupported")
